@@ -1743,12 +1743,42 @@ func describeVal(v ssa.Value) string {
 
 // ---- nil analysis ------------------------------------------------------------------------
 
+// keyOfSameMap: the key of the lookup is an element of the key list of the very map that is
+// looked into (`names := lo.Keys(m); sort.Strings(names); for _, k := range names { m[k] }`), and
+// the function does not write the map: the entry exists, the lookup yields what a range over the
+// map would.
+func keyOfSameMap(lk *ssa.Lookup) bool {
+	ld, ok := unwrap(lk.Index).(*ssa.UnOp)
+	if !ok || ld.Op != token.MUL {
+		return false
+	}
+	ia, ok := ld.X.(*ssa.IndexAddr)
+	if !ok {
+		return false
+	}
+	c, ok := viaCell(unwrap(ia.X)).(*ssa.Call)
+	if !ok || len(c.Call.Args) != 1 {
+		return false
+	}
+	name := strings.SplitN(calleeName(&c.Call), "[", 2)[0]
+	if !(strings.HasSuffix(name, "samber/lo.Keys") || name == "maps.Keys" || strings.HasSuffix(name, "exp/maps.Keys")) {
+		return false
+	}
+	if viaCell(unwrap(c.Call.Args[0])) != viaCell(unwrap(lk.X)) {
+		return false
+	}
+	return !mapWrittenIn(lk.Parent(), lk.X) && !mapWrittenIn(lk.Parent(), c.Call.Args[0])
+}
+
 // maybeNilSource classifies v as a value that may be nil by construction.
 func (r *Run) maybeNilSource(v ssa.Value) (kind, desc string, ok bool) {
 	switch x := v.(type) {
 	case *ssa.Lookup:
 		if _, isMap := x.X.Type().Underlying().(*types.Map); !isMap || x.CommaOk {
 			return
+		}
+		if keyOfSameMap(x) {
+			return // the key was taken from this very map (its key list): the entry exists, as in a range over the map
 		}
 		switch x.Type().Underlying().(type) {
 		case *types.Pointer, *types.Interface:
